@@ -153,6 +153,24 @@ fn break_hunk(h: &mut HHunk, match_tag: u8) -> bool {
     }
 }
 
+/// The hunk stops matching only because its last matched line differs in the final newline (present in the
+/// patch and missing in the file, or the reverse).
+fn break_hunk_final_newline(h: &mut HHunk, match_tag: u8) -> bool {
+    if let Some(l) = h.lines.iter_mut().rev().find(|l| l.tag == match_tag) {
+        if l.text.0.len() < 2 {
+            return false;
+        }
+        if l.text.0.last() == Some(&b'\n') {
+            l.text.0.pop();
+        } else {
+            l.text.0.push(b'\n');
+        }
+        true
+    } else {
+        false
+    }
+}
+
 pub fn gen_ws(ch: &mut Chooser, cx: &mut CaseCtx, o: &WsGenOpts) -> WsCase {
     let alpha = match ch.weighted(&[2, 4, 1]) {
         0 => Alphabet::Small(3),
@@ -392,7 +410,13 @@ pub fn gen_ws(ch: &mut Chooser, cx: &mut CaseCtx, o: &WsGenOpts) -> WsCase {
                     let mut fail_reason = None;
                     if want_fail && rej_dir_ok(&path) {
                         let tag = if reverse { b'+' } else { b'-' };
-                        if !fp.hunks.is_empty() && break_hunk(&mut fp.hunks[0], tag) {
+                        let only_newline = ch.chance(1, 3);
+                        if !fp.hunks.is_empty() && only_newline && fp.hunks.len() == 1 && break_hunk_final_newline(&mut fp.hunks[0], tag) {
+                            failing = vec![0];
+                            fail_reason = Some("delete-mismatch".into());
+                            feat.push("delete-mismatch-only-in-final-newline".into());
+                            any_failed = true;
+                        } else if !fp.hunks.is_empty() && break_hunk(&mut fp.hunks[0], tag) {
                             failing = vec![0];
                             fail_reason = Some("delete-mismatch".into());
                             any_failed = true;
